@@ -33,10 +33,10 @@ type YNode struct {
 	Raw         bool // scalar text is written verbatim (used for the null literal)
 }
 
-func YS(s string) *YNode              { return &YNode{Scalar: &s} }
-func YNull() *YNode                   { s := ""; return &YNode{Scalar: &s} }
-func YSeq(items ...*YNode) *YNode     { return &YNode{IsSeq: true, Seq: items} }
-func YMap() *YNode                    { return &YNode{IsMap: true} }
+func YS(s string) *YNode          { return &YNode{Scalar: &s} }
+func YNull() *YNode               { s := ""; return &YNode{Scalar: &s} }
+func YSeq(items ...*YNode) *YNode { return &YNode{IsSeq: true, Seq: items} }
+func YMap() *YNode                { return &YNode{IsMap: true} }
 func (n *YNode) Put(k string, v *YNode) *YNode {
 	n.Keys = append(n.Keys, YS(k))
 	n.Vals = append(n.Vals, v)
